@@ -565,6 +565,77 @@ def chunk_by(stream, cuts):
     return out
 
 
+def transport_shim_case(ctx, ssnet, helpers, grant, payload_lens, only=None):
+    """The repository's own byte transport between Mux and ssh on platforms without select() on pipes
+    (`helpers.SocketRWShim`: a socketpair and two pump threads, used by ssh.connect and server.main on win32).  The
+    pipe theorems assume the transport hands on exactly the bytes written, in order, whatever the sizes of its reads
+    and writes; here the real shim is held to that: encoded frames go in through its socket side, a raw writer that
+    takes at most `grant` bytes per call collects what comes out, and a second real Mux decodes it."""
+    import threading
+    frames = [(1 + i, ssnet.CMD_TCP_DATA, bytes([(i * 13 + j) % 251 for j in range(min(n, 251))]) * (n // 251 + 1))
+              for i, n in enumerate(payload_lens)]
+    frames = [(c, m, d[:n]) for (c, m, d), n in zip(frames, payload_lens)]
+    stream = b''.join(encode(f) for f in frames)
+    out = bytearray()
+    done = threading.Event()
+
+    class RawW:
+        def write(self, b):
+            k = min(len(b), grant)
+            out.extend(bytes(b[:k]))
+            return k
+
+        def flush(self):
+            pass
+
+    class NoR:
+        def read(self, n):
+            done.wait(20)
+            return b''
+    old_stderr = sys.stderr
+    sys.stderr = io.StringIO()
+    try:
+        shim = helpers.SocketRWShim(NoR(), RawW())
+        rf, wf = shim.makefiles()
+        wf.write(stream)
+        wf.flush()
+        import socket as _socket
+        shim._s2.shutdown(_socket.SHUT_WR)          # end of stream towards the writer: the pump drains and stops
+        import time as _time
+        t0 = _time.time()
+        last = -1
+        while _time.time() - t0 < 20:
+            if len(out) >= len(stream):
+                break
+            if len(out) == last and _time.time() - t0 > 2:
+                break                                # nothing more is coming
+            last = len(out)
+            _time.sleep(0.05)
+        done.set()
+        try:
+            rf.close()
+            wf.close()
+            shim._s2.close()
+        except OSError:
+            pass
+    finally:
+        sys.stderr = old_stderr
+    got = bytes(out)
+    p = Pair(ssnet)
+    p.new()
+    for k in range(0, len(got), 16384):
+        if p.dead:
+            break
+        p.handle('d', got[k:k + 16384])
+    if got != stream or p.dead or p.delivered != frames:
+        ctx.violation('C07:transport:shim-does-not-hand-on-the-bytes-written',
+                      case=dict(stream='transport-shim', grant=grant, payload_lens=list(payload_lens)),
+                      expected='%d bytes / %d messages out of the shim, as written' % (len(stream), len(frames)),
+                      observed='%d bytes out (%s), %d messages decoded' % (
+                          len(got), 'a prefix' if stream.startswith(got) else 'not even a prefix', len(p.delivered)),
+                      kind='input')
+
+
 def gen_cases(ctx):
     ssnet, client, helpers = _mods()
     rng = ctx.rng
@@ -673,6 +744,12 @@ def run(ctx):
                 ctx.sample(dict(kind=kind, input=[l[:120] for l in lg.ins[:8]], real_code_output=[l[:120] for l in lg.outs[:8]]))
                 break
     compare(ctx, logs)
+    ssnet, client, helpers = _mods()
+    for grant, lens_ in ((4096, (0, 1, 2048, 65535)), (1, (0, 5, 40)), (100000, (2048,) * 20), (16383, (16384, 16385, 3))):
+        transport_shim_case(ctx, ssnet, helpers, grant, lens_)
+        ctx.count()
+        ctx.hist('transport-shim')
+        ctx.mark(('transport-shim', grant), True)
 
 
 def replay(ctx, rep):
@@ -683,6 +760,10 @@ def replay(ctx, rep):
         c2 = type(ctx)(ctx.prop_id, 'quick', 0)
         ping_during_partial_write(c2, ssnet, random.Random(0), case['grant'], case['payload_len'])
         return bool(c2.violations), (c2.violations[0]['observed'] if c2.violations else 'stream decodes to the frames sent')
+    if case.get('stream') == 'transport-shim':
+        c2 = type(ctx)(ctx.prop_id, 'quick', 0)
+        transport_shim_case(c2, ssnet, helpers, case['grant'], tuple(case['payload_lens']))
+        return bool(c2.violations), (str(c2.violations[0]['observed']) if c2.violations else 'the shim hands on the bytes written')
     if case.get('stream') == 'big-frame':
         c2 = type(ctx)(ctx.prop_id, 'quick', 0)
         big_frame_case(c2, ssnet, case['payload_len'], tuple(case['reads']))
